@@ -155,12 +155,19 @@ def random_history(lay, rng, steps, bias_space=0.5, p_both=0.1, max_leaves=120, 
     others = []
     for _ in range(steps):
         if companions and rng.random() < companions:
-            with contextlib.redirect_stdout(io.StringIO()):
-                if not others or rng.random() < 0.5:
-                    others.append(lay.new_mesh())
-                o = rng.choice(others)
-                if len(o.leaf_elements) < 40:
-                    o.refine_axis(rng.choice(list(o.leaf_elements)), rng.randrange(2))
+            try:
+                with contextlib.redirect_stdout(io.StringIO()):
+                    if not others or rng.random() < 0.5:
+                        others.append(lay.new_mesh())
+                    o = rng.choice(others)
+                    if len(o.leaf_elements) < 40:
+                        o.refine_axis(rng.choice(list(o.leaf_elements)), rng.randrange(2))
+            except Exception as ex:
+                # a legal operation on another mesh object fails: recorded on this trace as a failed call
+                ev = {"k": "obs", "exc": "companion mesh: " + exc_text(ex)}
+                ev["post"] = events[-1]["post"]
+                events.append(ev)
+                others = []
         order = [tuple(a) for a in events[-1]["post"]] if events[-1]["exc"] == "" else None
         if order is None or len(order) > max_leaves:
             break
